@@ -52,6 +52,21 @@ def body(c):
             if ndiff <= 3:
                 c.violation("kv:inmem.observationsDiffer", {"case": r["case"], "disk": dd[r["case"]], "inmem": r["digest"]},
                             {"seed": c.seed, "case": sims[r["case"]], "keys": [k.decode("latin-1") for k in tab]})
+    # values of exactly the in-memory limit (ValueThreshold as configured, inclusive) and one byte below it: valid in
+    # both modes, stored inline in memory and in the value log on disk
+    lmem = K.replay(c, sims, "inmem+lim", c.seed, "sim-both-modes", keys=tab, flags=["-fsaudit"], cwd=cwd, tmpdir=tmp)
+    ldisk = K.replay(c, sims, "lim", c.seed, "sim-both-modes", keys=tab)
+    ld = {r["case"]: r["digest"] for r in ldisk if r["ok"]}
+    nl = 0
+    for r in lmem:
+        if r["ok"] and r["case"] in ld and ld[r["case"]] != r["digest"]:
+            nl += 1
+            if nl <= 3:
+                c.violation("kv:inmem.observationsDiffer", {"case": r["case"], "disk": ld[r["case"]], "inmem": r["digest"], "values": "limit-sized"},
+                            {"seed": c.seed, "case": sims[r["case"]], "keys": [k.decode("latin-1") for k in tab]})
+    c.cov["limit_sized_values"] = {"sizes": "8, T-1, T (T = ValueThreshold = in-memory value limit)", "digests_compared": len(ld), "digests_different": nl}
+    if K.tree_hash(cwd) != before[0] or K.tree_hash(tmp) != before[1]:
+        c.violation("kv:inmem.filesTouched", {"stage": "limit-sized values"}, {"config": "inmem+lim", "seed": c.seed})
     if not q:
         K.replay(c, sims, "inmem+zstd", c.seed, "sim-both-modes", keys=tab, flags=["-fsaudit"], cwd=cwd, tmpdir=tmp)
         K.replay(c, sims, "vlog+l3", c.seed, "sim-both-modes", keys=tab)
